@@ -274,8 +274,8 @@ def c_from_utf8(eng, st, fr, f, args, site):
         return [(st, ok)]
     errv = Struct(et, (up, ("UTF8ERR", vw["base"], vw["off"], vw["len"])))
     st2 = st.fork()
-    st2.key = st2.key + (("utf8", "ok"),)
-    ns.key = ns.key + (("utf8", "err"),)
+    eng.key_outcome(st2, "utf8", "ok")
+    eng.key_outcome(ns, "utf8", "err")
     eng.events.append(("from_utf8", vw["base"], vw["off"], vw["len"]))
     return [(st2, ok), (ns, Enum(rt, ((1, (errv,)),), "utf8"))]
 
@@ -308,9 +308,9 @@ def c_string_from_utf8(eng, st, fr, f, args, site):
     et = variant_payload_ty(eng, rt, 1)
     s = new_cont(eng, "string", c.len, None, c.segs, okt, hint="utf8(%s)" % c.id)
     st2 = st.fork()
-    st2.key = st2.key + (("utf8", "ok"),)
     ns = st.fork()
-    ns.key = ns.key + (("utf8", "err"),)
+    eng.key_outcome(st2, "utf8", "ok")
+    eng.key_outcome(ns, "utf8", "err")
     return [(st2, Enum(rt, ((0, (s,)),), "utf8")), (ns, Enum(rt, ((1, (Top(et, "utf8err#%d" % eng._hv()),)),), "utf8"))]
 
 
